@@ -1,4 +1,5 @@
 mod actors;
+mod actors_adm;
 mod actors_tx;
 mod fixtures;
 mod ix;
